@@ -10,7 +10,7 @@ import tempfile
 import warnings
 
 from .core import exc_class, hx, unhx
-from .fstree import (nfc_twin, shuffled_scandir, token_bytes, unicode_variant_bytes, wide_tree, CHAIN_FILE, CHAIN_NAME, FILE_MODES, ROOT_SPELLINGS, apply_ops, chain_file, chain_has_file, collect_ids,
+from .fstree import (CONCURRENT_NOTE, REENTRANT_NOTE, concurrent_trees, gen_concurrent, run_together, trees_on_disk, nfc_twin, shuffled_scandir, token_bytes, unicode_variant_bytes, wide_tree, CHAIN_FILE, CHAIN_NAME, FILE_MODES, ROOT_SPELLINGS, apply_ops, chain_file, chain_has_file, collect_ids,
                      count_nodes, enc_chain, enc_tree, gen_name, gen_reread, gen_tree, has_kind, impl_chain, materialise, mutate_tree,
                      other_spelling, ref_chain, ref_ids, shrink_tree, spelled_root, subdirs)
 
@@ -54,7 +54,10 @@ RULE = ("random file-system trees (depth <= 5, <= 60 nodes, files 0..100 bytes p
         "the second (unlimited) read re-uses the first read's filter object in 40 % of the cases, gets a progress_callback "
         "(positive counts) and, in half of the cases, a shuffled os.scandir; iter_tree is also called with dedup=True / "
         "dedup=False (every node) and counted; special files are fifos, unix sockets and character devices, modes include 0, "
-        "set-uid/gid and sticky bits, names up to 255 bytes, two directories with 300 entries; RE-READ (25 % of the tree cases): after the "
+        "set-uid/gid and sticky bits, names up to 255 bytes, two directories with 300 entries; CONCURRENT READS (5 cases, thorough 40): 2-4 trees (a small tree plus 2-4 files of 70 kB - 512 kB whose bytes differ per "
+        "tree) read with the case's filter and limit and exported in as many threads released together behind a barrier, 3-5 "
+        "rounds, bounded joins - or nested in one thread (the read of tree B started from the path_filter of the read of tree "
+        "A); ids = reference ids of each pruned tree, export data = the bytes on disk; RE-READ (25 % of the tree cases): after the "
         "reads and the export the tree is modified in place - files rewritten with other bytes of the same length and "
         "atime/mtime restored, exec bits flipped, file <-> symlink, directory -> file, entries added and removed, a directory "
         "renamed (same inode), two same-size files swapped - or removed and built again at the same path with other bytes "
@@ -465,6 +468,14 @@ def gen(rng, tier):
                                           "all_as": "default", "reuse_filter": True, "shuffle": i})
     for k in range(20 if tier == "quick" else 400):
         cases.insert(len(FIXED) + k * (len(cases) // (25 if tier == "quick" else 420)), gen_glob_case(rng))
+    # several trees read (and exported) at the same time in threads / nested in one thread
+    pat = lambda *ps: {"pats": [p.hex() for p in ps], "abs": [False] * len(ps)}
+    conc = [("empty", None, "threads"), (pat(b"*/dir", b"big1"), 100000, "threads"), ({"named": [b"DIR".hex()], "cs": False}, 1, "reentrant"),
+            ("all", 100000, "threads"), (pat(b"e", b"bigdir/*"), None, "reentrant")]
+    for i in range(5 if tier == "quick" else 40):
+        f_, l_, m_ = conc[i % 5]
+        cases.insert(len(FIXED) + 7 + i * max(1, len(cases) // 7),
+                     {"tree": CHAIN_BOTTOM, "filter": f_, "limit": l_, "root": "real", "fspell": "same", "concurrent": gen_concurrent(rng, m_)})
     chains = gen_chain_cases(rng, tier)
     for i, ch in enumerate(chains):
         cases.insert(len(FIXED) + 3 + i * max(1, len(cases) // (len(chains) + 1)), ch)
@@ -479,6 +490,81 @@ CHAIN_BOTTOM = D((b"x", R(b"hi", 0o755)), (b"k", D((b"l", L(b"k")), (b"dir", D((
 
 def _is_chain(c):
     return bool(c.get("chain"))
+
+
+def _is_conc(c):
+    return isinstance(c, dict) and bool(c.get("concurrent"))
+
+
+def _impl_concurrent(c):
+    """k trees (big files, different bytes) read with the case's filter and limit and exported at the same time: in k threads,
+    or nested in one thread (the inner read is started from the outer read's path_filter)"""
+    from swh.model.from_disk import Directory
+    cc, flt, lim = c["concurrent"], c["filter"], c["limit"]
+    trees = concurrent_trees(c)
+    pruned = [prune_tree(t, flt) for t in trees]
+    want = [{hx(k): v for k, v in ref_ids(p).items()} for p in pruned]
+    expected = []
+    for p in pruned:
+        e = {}
+        for _k, data in _files_by_path(p).values():
+            e.setdefault(_git_blob(data), [])
+            if data not in e[_git_blob(data)]:
+                e[_git_blob(data)].append(data)
+        expected.append(e)
+    res = {"wrong": [], "errors": [], "hang": False}
+    with trees_on_disk(trees) as roots:
+        for rnd in range(cc["rounds"]):
+            filters = [_mk_filter(flt, r, r) for r in roots]       # built here: warnings.catch_warnings is not thread-safe
+
+            def read(i, f=None):
+                f = filters[i] if f is None else f
+                d = Directory.from_disk(path=roots[i], max_content_length=lim) if f is None else \
+                    Directory.from_disk(path=roots[i], path_filter=f, max_content_length=lim)
+                ids = {hx(k): v for k, v in collect_ids(d).items()}
+                return ids, _export_facts(d, expected[i], lim, counts=False)[1]
+            if cc["mode"] == "threads":
+                got, errs, hang = run_together([(lambda i=i: read(i)) for i in range(len(roots))])
+            else:
+                inner = {}
+
+                def nested(dirpath, dirname, entries):
+                    if not inner:
+                        inner["pending"] = True
+                        inner["res"] = read(1)
+                    return True if filters[0] is None else filters[0](dirpath, dirname, entries)
+                try:
+                    outer = read(0, nested)
+                    got, errs, hang = [outer, inner.get("res")], [], False
+                except Exception as e:
+                    got, errs, hang = [None, None], [exc_class(e) + ":" + str(e)[:80]], False
+            res["errors"] += errs
+            res["hang"] = res["hang"] or hang
+            for i, g in enumerate(got):
+                if g is None:
+                    if not errs and not hang:
+                        res["wrong"].append("round %d, tree %d: no result" % (rnd, i))
+                elif g[0] != want[i]:
+                    diff = sorted(k for k in set(g[0]) | set(want[i]) if g[0].get(k) != want[i].get(k))[:3]
+                    res["wrong"].append("round %d, tree %d: ids differ from the pruned tree's at %s" % (rnd, i, diff))
+                elif g[1]:
+                    res["wrong"].append("round %d, tree %d: export: %s" % (rnd, i, "; ".join(g[1][:2])))
+            if res["wrong"] or res["errors"] or res["hang"]:
+                break
+    res["wrong"] = res["wrong"][:4]
+    return res
+
+
+def _oracle_concurrent(c, ires):
+    cc = c["concurrent"]
+    note = CONCURRENT_NOTE % (cc["threads"], cc["rounds"]) if cc["mode"] == "threads" else REENTRANT_NOTE
+    if ires.get("hang"):
+        return "a read did not finish within 60 s " + note
+    if ires.get("errors"):
+        return "from_disk / the export raised %s %s" % (ires["errors"][:2], note)
+    if ires.get("wrong"):
+        return "%s %s" % ("; ".join(ires["wrong"][:2]), note)
+    return None
 
 
 def gen_chain_cases(rng, tier):
@@ -835,6 +921,8 @@ def _git_blob(data):
 
 
 def nontrivial(c):
+    if _is_conc(c):
+        return True
     if _is_glob(c):
         return len(c["pairs"]) >= 10
     if _is_chain(c):
@@ -864,6 +952,8 @@ def classify(c):
 
 
 def _classify(c):
+    if _is_conc(c):
+        return ["concurrent-" + c["concurrent"]["mode"]]
     if _is_glob(c):
         return ["glob-pairs"]
     if _is_chain(c):
@@ -1066,6 +1156,8 @@ def impl(c):
                 except Exception as e:
                     out.append("error:" + exc_class(e))
         return {"glob": out}
+    if _is_conc(c):
+        return _impl_concurrent(c)
     if _is_chain(c):
         return _impl_chain(c)
     from swh.model.from_disk import Directory
@@ -1157,6 +1249,8 @@ def enc_filter(flt):
 def requests(c):
     if _is_glob(c):
         return ["glob %s %s" % (ph, th) for ph, th in c["pairs"]]
+    if _is_conc(c):         # the trees with the big files go to the independent reference only; the model validates that
+        return ["pruned %s %s" % (enc_filter(c["filter"]), enc_tree(c["tree"]))]      # reference (and the pruning) on the base tree
     if _is_chain(c):
         t, f = enc_chain(c), enc_filter(c["filter"])
         lim = "-" if c["limit"] is None else str(c["limit"])
@@ -1190,6 +1284,8 @@ def _ids(r):
 def model(c, resp):
     if _is_glob(c):
         return {"glob": [int(r[3:]) if r in ("ok 0", "ok 1") else r for r in resp]}
+    if _is_conc(c):
+        return {"pruned_root": resp[0][3:] if resp[0].startswith("ok ") else resp[0]}
     if _is_chain(c):
         rid = lambda r: r[3:] if r.startswith("ok ") else r
         if len(resp) == 1:
@@ -1252,6 +1348,8 @@ def _long_link(t, lim):
 def oracle(c, ires, mres):
     if _is_glob(c):
         return None         # fnmatch / re are the standard library: disagreement is a model-validation failure (compare)
+    if _is_conc(c):
+        return _oracle_concurrent(c, ires)
     if _is_chain(c):
         return _oracle_chain(c, ires, mres)
     if "error2" in ires:
@@ -1297,6 +1395,10 @@ def compare(c, ires, mres):
         for (ph, th), a, b in zip(c["pairs"], ires["glob"], mres["glob"]):
             if a != b:
                 return "glob model disagrees with fnmatch.translate+re: pattern %r text %r: re says %s, model says %s" % (unhx(ph), unhx(th), a, b)
+        return None
+    if _is_conc(c):
+        if ref_ids(prune_tree(c["tree"], c["filter"]))[b""] != mres["pruned_root"]:
+            return "the harness's reference id of the pruned base tree differs from the model's (reference bug)"
         return None
     if _is_chain(c):
         if mres.get("rootid") == "err SymlinkTooLarge" or "Symlink too large" in str(ires.get("error", "")):
@@ -1349,6 +1451,13 @@ def shrink(c):
         if n > 1:
             yield dict(c, pairs=c["pairs"][:n // 2])
             yield dict(c, pairs=c["pairs"][n // 2:])
+        return
+    if _is_conc(c):
+        cc = c["concurrent"]
+        if len(cc["big"]) > 1:
+            yield dict(c, concurrent=dict(cc, big=cc["big"][:-1]))
+        if cc["threads"] > 2:
+            yield dict(c, concurrent=dict(cc, threads=cc["threads"] - 1))
         return
     if _is_chain(c):
         yield dict(c, chain=c["chain"] // 2)
@@ -1405,7 +1514,7 @@ def coq_cases(cases):
     prune_named + node_id, export and mt_id with H := Sha1.sha1 evaluated by vm_compute inside Coq vs the extracted driver,
     on small trees: the hand-written FIXED cases and the first small generated ones (extraction cross-check)"""
     from .c06 import coq_from_disk, coq_tree_bytes
-    small = [c for c in cases if not _is_glob(c) and not _is_chain(c) and not c.get("reread") and not _is_pat(c["filter"])
+    small = [c for c in cases if not _is_glob(c) and not _is_chain(c) and not _is_conc(c) and not c.get("reread") and not _is_pat(c["filter"])
              and count_nodes(c["tree"]) <= 10 and coq_tree_bytes(c["tree"]) <= 400][:16]
     cases[:] = small
     return coq_from_disk(ID, [(c, requests(c)) for c in small])
